@@ -729,6 +729,15 @@ func (w *ammWorld) opSwap(u sdk.AccAddress, sent, recv string, amt, minR *big.In
 			}
 		}
 	}
+	// the real balance (not the pricing depth) of the output token in the pool that pays it out
+	below := ""
+	if recv == "rowan" {
+		if p := w.pool(sent); p != nil {
+			below = p.NativeAssetBalance.String()
+		}
+	} else if p := w.pool(recv); p != nil {
+		below = p.ExternalAssetBalance.String()
+	}
 	w.tx(fmt.Sprintf("swap %s %s %s %s %s", u, sent, recv, amt, minR), class, func(ctx sdk.Context) (string, error) {
 		snap := w.bankSnapshot(ctx)
 		before := w.app.BankKeeper.GetBalance(ctx, u, recv).Amount
@@ -760,6 +769,10 @@ func (w *ammWorld) opSwap(u sdk.AccAddress, sent, recv string, amt, minR *big.In
 		w.out.Emit(settle, "true", "chk.settle", false)
 		if strings.HasPrefix(bound, "chk") {
 			w.out.Emit(bound, "true", "chk.bound", false)
+		}
+		if below != "" {
+			y := strings.Fields(settle)[8]
+			w.out.Emit(fmt.Sprintf("chk c03.below tag=%s.below %s %s", class, y, below), "true", "chk.below", false)
 		}
 	}
 }
@@ -1008,6 +1021,34 @@ func init() {
 			w.opAdd(w.users[3], "cusdc", e18(1), e18(1)) // refreshed: inside the lock period at the epoch end
 			w.setHeight(15)
 			w.opEpoch()
+		}
+		// D14: a pool with margin liabilities on the output side and a swap whose priced output equals the pool's
+		// real balance of the output token exactly (found by bisection on the real CalcSwapResult): it must fail,
+		// as must the amounts next to it that price above the balance
+		{
+			w := newAmmWorld(rng, out, 3, -1)
+			w.fundAll()
+			w.opCreate(w.users[0], "cusdc", e18(1), e18(1))
+			tenth := new(big.Int).Quo(e18(1), big.NewInt(10))
+			w.poolMargin("cusdc", big.NewInt(0), tenth, big.NewInt(0), big.NewInt(0))
+			if p := w.pool("cusdc"); p != nil {
+				X, Y := p.ExtractDebt(p.NativeAssetBalance, p.ExternalAssetBalance, false)
+				f := decRaw(w.configuredFee("rowan"))
+				target := p.ExternalAssetBalance
+				lo, hi := big.NewInt(1), new(big.Int).Mul(e18(1), big.NewInt(1000))
+				for lo.Cmp(hi) < 0 {
+					mid := new(big.Int).Rsh(new(big.Int).Add(lo, hi), 1)
+					y, _ := clpkeeper.CalcSwapResult(false, X, uintOf(mid), Y, sdk.ZeroDec(), f)
+					if y.LT(target) {
+						lo = new(big.Int).Add(mid, big.NewInt(1))
+					} else {
+						hi = mid
+					}
+				}
+				for _, d := range []int64{0, 1, 1000, -1} { // the refused amounts first: they leave the pool as it is
+					w.opSwap(w.users[1], "rowan", "cusdc", new(big.Int).Add(lo, big.NewInt(d)), big.NewInt(0))
+				}
+			}
 		}
 		// D13: pool-mode epoch on a pool whose native side an LPPD run at block rate 1 has emptied (two equal
 		// providers, even balance): CalculatePoolUnits refuses the re-investment — the bucket must stay intact —
